@@ -17,7 +17,7 @@ RULE = ("Hypothesis draws a signing plan (alg in 14 algorithms, key built from g
         "and header members (+kid). non-trivial: every case (a real signature is produced); distinct = digest of "
         "(plan label, key mode, key forms, key class).")
 ASSUMPTIONS = ["keys are built with `cryptography` number objects from generated scalars (not with joserfc)",
-               "b64=false with a payload that is not valid UTF-8 is DONT_CARE for production"]
+               "b64=false with a payload that is not valid UTF-8 is DONT_CARE for production in the JSON serializations (a JSON string cannot carry it); the compact form must produce the detached token"]
 BUDGET_S = {"quick": 85, "thorough": 1200}
 FLOORS = {"quick": {"ser:compact": 500, "ser:flattened": 500, "ser:general": 500, "b64:False": 200},
           "thorough": {"ser:compact": 2000, "ser:general": 2000, "b64:False": 800}}
@@ -80,14 +80,15 @@ def run_case(case) -> dict:
     f: dict = {}
     given = copy.deepcopy([(m["protected"], m["header"]) for m in plan["members"]])
     try:
-        token, handed = jp.jose_sign(plan, keymode, case["form_sign"])
+        token, handed = jp.jose_sign(plan, keymode, case.get("form_sign", "dict"))
     except Exception as e:
-        if plan["b64"] is False and jp.payload_class(payload) == "non-utf8":
-            return {"dont_care": "b64=false with non-UTF-8 payload"}
+        if plan["b64"] is False and jp.payload_class(payload) == "non-utf8" and ser != "compact":
+            # a JSON string cannot carry those octets; the compact form can (detached, RFC 7797 section 5.2)
+            return {"dont_care": "b64=false with non-UTF-8 payload in a JSON serialization"}
         return {f"C03:sign-raises:{tag}:{exc_key(e)}": f"signing raised {type(e).__name__}: {e}"}
     # --- verify with the public form
     try:
-        obj = jp.jose_verify(token, plan, keymode, case["form_verify"], private=False)
+        obj = jp.jose_verify(token, plan, keymode, case.get("form_verify", "dict"), private=False)
     except Exception as e:
         return {f"C03:verify-raises:{tag}:{exc_key(e)}": f"token produced by joserfc does not verify: {type(e).__name__}: {e}"}
     if obj.payload != payload:
@@ -116,7 +117,7 @@ def run_case(case) -> dict:
     # --- RFC 7797 attached compact tokens verify without handing the payload over
     if ser == "compact" and plan["b64"] is False and ".." not in token:
         try:
-            o2 = jp.jose_verify(token, plan, keymode, case["form_verify"], private=False, give_payload=False)
+            o2 = jp.jose_verify(token, plan, keymode, case.get("form_verify", "dict"), private=False, give_payload=False)
             if o2.payload != payload:
                 f[f"C03:attached-unencoded-payload-differs:{tag}"] = f"{o2.payload!r} != {payload!r}"
         except Exception as e:
@@ -132,7 +133,7 @@ def run_case(case) -> dict:
                 restored = ".".join([b[0], a[1], b[2]]) if len(b) == 3 else det
                 detached_ok = None
                 try:
-                    jp.jose_verify(det, plan, keymode, case["form_verify"])
+                    jp.jose_verify(det, plan, keymode, case.get("form_verify", "dict"))
                     detached_ok = True
                 except Exception:
                     detached_ok = False
@@ -142,7 +143,7 @@ def run_case(case) -> dict:
                 if "payload" in det or any(det.get(k) != token.get(k) for k in token if k != "payload"):
                     f[f"C03:detach-alters-token:{ser}"] = f"detach_content changed more than the payload: {det!r}"
                 restored = dict(det, payload=token["payload"])
-            o3 = jp.jose_verify(restored, plan, keymode, case["form_verify"])
+            o3 = jp.jose_verify(restored, plan, keymode, case.get("form_verify", "dict"))
             if o3.payload != payload:
                 f[f"C03:restored-payload-differs:{ser}"] = "payload differs after detaching and restoring"
         except Exception as e:
@@ -161,13 +162,13 @@ def run_shard(ctx, spec):
             ctx.dontcare(f["dont_care"])
             return
         kc = tuple(gk.describe(gk.key_from_record(m["key"])) for m in plan["members"])
-        ctx.case((jp.plan_label(plan), case["keymode"], case["form_sign"], case["form_verify"], kc),
+        ctx.case((jp.plan_label(plan), case["keymode"], case.get("form_sign", "dict"), case.get("form_verify", "dict"), kc),
                  cls=[f"ser:{plan['ser']}", f"b64:{plan['b64']}", f"keymode:{case['keymode']}", f"form:{case['form_sign']}",
                       f"payload:{jp.payload_class(bytes.fromhex(plan['payload_hex']))}"]
                  + [f"alg:{m['alg']}" for m in plan["members"]] + [f"key:{k}" for k in kc if "short" in k or "lead0" in k],
                  sample={"ser": plan["ser"], "b64": plan["b64"], "algs": [m["alg"] for m in plan["members"]],
                          "protected": [m["protected"] for m in plan["members"]], "header": [m["header"] for m in plan["members"]],
-                         "payload_hex": plan["payload_hex"][:60], "keymode": case["keymode"], "forms": [case["form_sign"], case["form_verify"]]})
+                         "payload_hex": plan["payload_hex"][:60], "keymode": case["keymode"], "forms": [case.get("form_sign", "dict"), case.get("form_verify", "dict")]})
         for k, w in f.items():
             ctx.finding(k, w, case)
     if spec.get("part") == "cells":
